@@ -106,6 +106,7 @@ class PathCtx:
         self.trail = Trail()
         self.fresh_counter = 0
         self.notes = {}
+        self.consumed_gens = []
         self.nomerge_scope = 0
 
     def fresh(self, prefix):
@@ -230,6 +231,8 @@ class Explorer:
                 # module-level objects (and shared default arguments) go back to their state before the path: every
                 # path starts from the repository's import state
                 from .values import GLOBAL_OBJS
+                for g_ in ctx.consumed_gens:
+                    g_.consumed = False
                 for idx in range(len(ctx.trail.log) - 1, -1, -1):
                     obj, key, old = ctx.trail.log[idx]
                     if id(obj) in GLOBAL_OBJS and idx not in ctx.trail.loading:
